@@ -657,6 +657,12 @@ func RUnits(c *core.Ctx) {
 					idx, base, what = x.Index, x.X, "index"
 				case *ssa.Slice:
 					idx, base, what = x.Low, x.X, "low bound"
+					// the high bound is a rune position too
+					if x.High != nil && x.Low != nil && isRuneSlice(x.X.Type()) && tainted[x.High] { // text[a:b]; buf[:n] sizes a buffer
+						ord[name]++
+						c.Visit(name)
+						c.Bad(fmt.Sprintf("%s / byte offset used as rune high bound #%d", name, ord[name]), ins.Pos(), "the high bound of a slice of a []rune is a value derived from a byte count (len of a string, strings.Index*): for non-ASCII input it lies beyond the decoded runes, inside whatever the pooled buffer held before")
+					}
 				}
 				if idx == nil || !isRuneSlice(base.Type()) {
 					continue
